@@ -14,7 +14,8 @@ PORTS = [None, 80, 443, 8080, 1, 65535, 8443]
 PATHS = ["", "/", "/a/b", "/a%20b", "/a;p", "/*", "/a/../b", "/~x", "/a+b", "//x", "/a:b@c", "/%zz"]
 QUERIES = ["", "?q=1", "?a=b&c=d%26", "?x", "?a=b=c", "?q=a+b"]
 FRAGS = ["", "#f", "#a/b?c"]
-AUTH_ALPHA = ["a", "b", "Z", "1", "9", "0", ":", "[", "]", ".", "-", "_", "\n", " ", "é", "x", "::", "[::1]", "example.com", ":80", ":65536", ":0", ":"]
+AUTH_ALPHA = ["a", "b", "Z", "1", "9", "0", ":", "[", "]", ".", "-", "_", "\n", " ", "é", "x", "::", "[::1]", "example.com", ":80", ":65536", ":0", ":",
+              "٨", "٠", ":٨٠", "८", "𝟡", ":٨0", "９", "²", "Ⅷ", ":٦٥٥٣٦"]
 
 
 def cps(s):
@@ -91,7 +92,10 @@ class Check(PropertyCheck):
                   "(the fields are what url.parse made of the URL; the URL read back parses like the one assigned), "
                   "edit_history_keeps_host_header_and_authority_pointing_to_destination (fold form over any edit sequence); url_get_set_idempotent_partial (general library, explicit hypothesis) + "
                   "url_get_set_idempotent_counterexample (IDN, F-C33b). Model tied to the real Request objects, url.parse, parse_authority "
-                  "and urllib.parse.urlsplit differentially.")
+                  "and urllib.parse.urlsplit differentially; in every url case the driver also runs the composite (pyLib (withRest …)).split — "
+                  "pySplit, the re-assembly and the '/' glue together — and compares it with urllib's (scheme, netloc, path) (lib-miss split); "
+                  "parse_authority is modelled for every Unicode decimal digit (generated table). All positive results on the re-assignment "
+                  "clause are PARTIAL (guard: lower-case ASCII host); the full statement UrlReassignIdempotent is refuted by the counterexample.")
     level_note = ("PARTIAL for IDN hosts (F-C33b: Request.url returns the U-label form which url.parse rejects). For ASCII hosts the former "
                   "hypothesis 'url.parse reads the getter's URL back' is now proved (url_parse_reads_getter_url); what remains assumed there are "
                   "(url_get_set_idempotent_final; pathAscii is derived now as well) only the IDNA law for ASCII names (IdnaAsciiLaw: ASCII in, ASCII out => unchanged) and, for "
@@ -109,7 +113,8 @@ class Check(PropertyCheck):
     rule = ("url cases: scheme x host form (9 DNS names incl. trailing dot/underscore/upper case/A-label, 3 IPv4, 6 bracketed IPv6, 4 IDN) x "
             "7 ports x 12 paths x 6 queries x 3 fragments assigned to HTTP/1 and HTTP/2 requests with/without Host header and authority, then "
             "re-assigned; 15% mutated URLs (userinfo, port 0/65536/non-digit, missing brackets, control characters); edit cases: 1–4 "
-            "host/port/url edits; pa cases: parse_authority on random strings over an alphabet of colons, brackets, digits and newlines; split "
+            "host/port/url edits; pa cases: parse_authority on random strings over an alphabet of colons, brackets, ASCII and other Unicode "
+            "decimal digits (Arabic-Indic, Devanagari, mathematical, full-width; plus non-decimal digit look-alikes) and newlines; split "
             "cases: valid and mutated ASCII URLs (leading blanks/controls, embedded TAB/CR/LF, unbalanced or invalid brackets) against "
             "urllib.parse.urlsplit. "
             "distinct = distinct case; all non-trivial.")
@@ -125,6 +130,20 @@ class Check(PropertyCheck):
     trusted_base = ["urllib.parse.urlparse/urlunparse splitting (parameter `split` of the model; its netloc reading is transcribed)",
                     "Python idna codec and ipaddress behind is_valid_host (parameters)", "CPython re for _authority_re (transcribed by hand)"]
     parallel = False
+
+    # ------------------------------------------------------------------ tables
+    def translate(self):
+        import sys, unicodedata
+        zeros = [c for c in range(sys.maxunicode + 1) if chr(c).isdecimal() and unicodedata.decimal(chr(c)) == 0]
+        assert all(chr(z + i).isdecimal() and unicodedata.decimal(chr(z + i)) == i for z in zeros for i in range(10))
+        assert sum(chr(c).isdecimal() for c in range(sys.maxunicode + 1)) == 10 * len(zeros)
+        src = ("-- generated by harness/c33.py from the running interpreter: the code points of the digit ZERO of every block of\n"
+               "-- Unicode decimal digits (str.isdecimal(): what `\\d` matches in a str pattern and int() accepts); each block is\n"
+               "-- ten consecutive code points with the values 0..9 (asserted when generating)\n"
+               "namespace MitmVerif.Gen.C33\n"
+               "def pyDigitZeros : List Nat := [" + ", ".join(map(str, zeros)) + "]\n"
+               "end MitmVerif.Gen.C33\n")
+        return {"MitmVerif/Gen/C33.lean": src}
 
     # ------------------------------------------------------------------ generator
     def _host(self, rng, idn=0.12):
